@@ -124,6 +124,18 @@ func newInterpreter(prog *ssa.Program, h *Harness, opts *Options, q *workQueue, 
 			}
 		}
 	}
+	// the os package is not initialised; give the three standard streams
+	// distinct identities so that writes to them can be told apart
+	if osPkg := prog.ImportedPackage("os"); osPkg != nil {
+		if ft, ok := osPkg.Members["File"].(*ssa.Type); ok {
+			for _, name := range []string{"Stdin", "Stdout", "Stderr"} {
+				if g, ok := osPkg.Members[name].(*ssa.Global); ok {
+					cell := zero(ft.Type())
+					*i.globals[g] = &cell
+				}
+			}
+		}
+	}
 	var transcript *os.File
 	if opts.Transcript != "" && worker == 0 {
 		transcript, _ = os.Create(opts.Transcript)
